@@ -222,7 +222,8 @@ pub fn extract(res: &SimResult) -> Trace {
                 }
             }
             EvKind::Send { ok, desc, .. } => {
-                if let Some(ci) = owner.get(&e.tid) {
+                // (only boards: a message of another type belongs to a channel some refactor added)
+                if let (Some(ci), false) = (owner.get(&e.tid), desc.starts_with("other:")) {
                     cmds[*ci].sends.push((e.t, desc.clone(), *ok));
                 }
             }
@@ -255,7 +256,187 @@ pub fn extract(res: &SimResult) -> Trace {
             _ => {}
         }
     }
+    // An engine that reads stdin in a thread of its own reads ahead of what it is serving: "what
+    // was printed after this line was read" then says nothing about which command an output
+    // answers. For such engines outputs are attributed by protocol order instead.
+    let reads_ahead = res.events.iter().any(|e| matches!(e.kind, EvKind::ReadLine(_)) && e.tid != 0);
+    if reads_ahead {
+        reattribute_by_protocol_order(res, &mut cmds);
+    }
+    if std::env::var("VERIF_DEBUG_TRACE").is_ok() {
+        for e in &res.events {
+            if !matches!(e.kind, EvKind::RecvEmpty) {
+                eprintln!("ev t={} tid={} {:?}", e.t, e.tid as i64, e.kind);
+            }
+        }
+        for c in &cmds {
+            eprintln!("cmd t={} {:?} outs={:?} tid={:?} sends={} fired={:?} probes={:?}", c.t, c.raw.trim(), c.outs.iter().map(|o| (o.t, o.line.chars().take(20).collect::<String>())).collect::<Vec<_>>(), c.search_tid, c.sends.len(), c.fired, c.probes);
+        }
+    }
     Trace { cmds, search_outs, thread_ends, end: res.end.clone(), t_end: res.virtual_ns, eof_reads }
+}
+
+/// Protocol-order attribution (black-box view): the k-th `bestmove` answers the k-th `go`, the
+/// k-th `readyok` the k-th `isready`; a command starts when it has arrived AND everything before
+/// it has been answered (`Cmd::t` becomes that instant); thread spawns, sends, polls, probes and
+/// fired faults are attributed by those windows.
+fn reattribute_by_protocol_order(res: &SimResult, cmds: &mut Vec<Cmd>) {
+    let outs: Vec<Out> = res.events.iter().filter_map(|e| if let EvKind::Emit(l) = &e.kind { Some(Out { t: e.t, tid: e.tid, line: l.clone() }) } else { None }).collect();
+    let reader_tids: std::collections::HashSet<usize> = res.events.iter().filter(|e| matches!(e.kind, EvKind::ReadLine(_) | EvKind::ReadEof)).map(|e| e.tid).collect();
+    // a line read by a reader thread is available to the command loop when it is forwarded (a
+    // delay injected into that thread is part of the input path, like GUI latency)
+    {
+        let mut ci = 0usize;
+        let evs = &res.events;
+        for (k, e) in evs.iter().enumerate() {
+            let is_read = matches!(e.kind, EvKind::ReadLine(_)) || (matches!(e.kind, EvKind::ReadEof) && cmds.get(ci).map(|c| c.eof).unwrap_or(false));
+            if !is_read {
+                continue;
+            }
+            if ci >= cmds.len() {
+                break;
+            }
+            if e.tid != 0 {
+                for f in evs[k + 1..].iter() {
+                    if f.tid != e.tid {
+                        continue;
+                    }
+                    match &f.kind {
+                        EvKind::Send { desc, .. } if desc.starts_with("other:") => {
+                            cmds[ci].t = f.t;
+                            break;
+                        }
+                        EvKind::ReadLine(_) | EvKind::ReadEof | EvKind::ThreadEnd(_) => break,
+                        _ => {}
+                    }
+                }
+            }
+            ci += 1;
+        }
+    }
+    let mut next_out = 0usize;
+    let mut t_free = 0u64;
+    let n = cmds.len();
+    for i in 0..n {
+        let arrival = cmds[i].t;
+        // what was printed before this line even arrived belongs to the command before it
+        let mut early: Vec<Out> = vec![];
+        while next_out < outs.len() && outs[next_out].t < arrival {
+            early.push(outs[next_out].clone());
+            next_out += 1;
+        }
+        if i > 0 {
+            if let Some(last) = early.last() {
+                t_free = t_free.max(last.t);
+            }
+            cmds[i - 1].outs.extend(early);
+        } else {
+            cmds[0].outs = early;
+        }
+        let c = &mut cmds[i];
+        if i > 0 || !c.outs.is_empty() {
+            // (outs of command 0 were just set)
+        }
+        if i > 0 {
+            c.outs.clear();
+        }
+        c.probes.clear();
+        c.sends.clear();
+        c.fired.clear();
+        c.search_tid = None;
+        c.recv_ok = 0;
+        c.recv_empty = 0;
+        c.recv_disc = 0;
+        let t0 = c.toks.first().map(|s| s.as_str()).unwrap_or("");
+        let target: Option<&str> = match t0 {
+            "uci" => Some("uciok"),
+            "isready" => Some("readyok"),
+            "go" => Some("bestmove"),
+            _ => None,
+        };
+        c.t = arrival.max(t_free);
+        if let Some(target) = target {
+            // scan forward for the answer; another command's answer in between means this one got none
+            let mut j = next_out;
+            let mut found = None;
+            while j < outs.len() {
+                let l = &outs[j].line;
+                let is = |k: &str| l == k || l.starts_with(&format!("{} ", k));
+                if is(target) {
+                    found = Some(j);
+                    break;
+                }
+                if (target != "bestmove" && is("bestmove")) || (target != "readyok" && is("readyok")) || (target != "uciok" && is("uciok")) {
+                    break;
+                }
+                j += 1;
+            }
+            if let Some(j) = found {
+                c.outs.extend(outs[next_out..=j].iter().cloned());
+                t_free = t_free.max(outs[j].t);
+                next_out = j + 1;
+            }
+        }
+    }
+    if n > 0 {
+        let rest: Vec<Out> = outs[next_out..].to_vec();
+        cmds[n - 1].outs.extend(rest);
+    }
+    // windows [start_i, start_{i+1})
+    let starts: Vec<u64> = cmds.iter().map(|c| c.t).collect();
+    let window_of = |t: u64| -> Option<usize> {
+        let mut w = None;
+        for (i, s) in starts.iter().enumerate() {
+            if *s <= t {
+                w = Some(i);
+            }
+        }
+        w
+    };
+    let mut owner: std::collections::HashMap<usize, usize> = std::collections::HashMap::new();
+    let mut probe_taken = vec![false; cmds.len()];
+    for e in &res.events {
+        // an injected delay is logged when it is over: it belongs to the window in which it began
+        let t_ev = match &e.kind {
+            EvKind::FaultFired(f) if !f.starts_with("spawn_delay") => {
+                let us = f.find('+').and_then(|i| f[i + 1..].find("us").and_then(|j| f[i + 1..i + 1 + j].parse::<u64>().ok())).unwrap_or(0);
+                e.t.saturating_sub(us * 1000)
+            }
+            _ => e.t,
+        };
+        let w = match window_of(t_ev) {
+            Some(w) => w,
+            None => continue,
+        };
+        match &e.kind {
+            EvKind::Spawn(child) => {
+                // the search thread of a go: spawned while that go is being served, and not a thread that reads stdin
+                if !reader_tids.contains(child) && cmds[w].toks.first().map(|s| s == "go").unwrap_or(false) && cmds[w].search_tid.is_none() {
+                    cmds[w].search_tid = Some(*child);
+                    owner.insert(*child, w);
+                }
+            }
+            EvKind::Send { ok, desc, .. } => {
+                if let (Some(ci), false) = (owner.get(&e.tid), desc.starts_with("other:")) {
+                    cmds[*ci].sends.push((e.t, desc.clone(), *ok));
+                }
+            }
+            EvKind::RecvOk => cmds[w].recv_ok += 1,
+            EvKind::RecvEmpty => cmds[w].recv_empty += 1,
+            EvKind::RecvDisc => cmds[w].recv_disc += 1,
+            EvKind::Probe(i) => {
+                // the j-th probe of a kind belongs to the j-th command of that kind (the probe
+                // of a go is taken after its bestmove, when the next command may have begun)
+                let tag = res.probes[*i].tag.clone();
+                if let Some(ci) = (0..cmds.len()).find(|ci| cmds[*ci].toks.first().map(|s| *s == tag).unwrap_or(false) && !probe_taken[*ci]) {
+                    probe_taken[ci] = true;
+                    cmds[ci].probes.push(*i);
+                }
+            }
+            EvKind::FaultFired(f) => cmds[w].fired.push((if reader_tids.contains(&e.tid) { 0 } else { e.tid }, f.clone())),
+            _ => {}
+        }
+    }
 }
 
 /// interleaving signature of one go: the order of {send #i, poll hit, poll miss (run-length
